@@ -116,6 +116,25 @@ impl SendWindow {
         }
     }
 
+    /// Check the ACK seq num in the incoming packet (if any) without changing the window:
+    /// an ACK for a sequence number which is further back than the window size cannot
+    /// refer to anything we have sent and not got acknowledged yet.
+    fn check_incoming(&self, hdr: &BtpHdr) -> Result<(), Error> {
+        if let Some(ack_seq_num) = hdr.get_ack() {
+            let unacknowledged = (Wrapping(self.last_sent_seq_num) - Wrapping(ack_seq_num)).0;
+
+            if unacknowledged > self.window_size {
+                warn!(
+                    "RX data integrity failure: ACK for a sequence number that was never sent: {}",
+                    ack_seq_num
+                );
+                return Err(ErrorCode::InvalidData.into());
+            }
+        }
+
+        Ok(())
+    }
+
     /// Return true if the sending window is full.
     ///
     /// A reference to the receiving window is necessary, because - as per the Matter Core spec -
@@ -675,6 +694,7 @@ impl Session {
             payload.len()
         );
 
+        self.send_window.check_incoming(&hdr)?;
         self.recv_window.accept_incoming(&hdr, payload, self.mtu)?;
         self.send_window.accept_incoming(&hdr);
 
